@@ -376,7 +376,7 @@ def execute(sc):
             name = op['entry']
             ctx = PoolCtx(op['argseed'], n, pool, stats)
             try:
-                call = api.ENTRIES[name]['build'](ctx)
+                call = api.build(name, ctx)
             except Exception as e:
                 stats['build_failed.' + name] = stats.get('build_failed.' + name, 0) + 1
                 continue
